@@ -96,6 +96,9 @@ func AnyKind() *rapid.Generator[int64] {
 	)
 }
 
+// ManyTagValue is the i-th value of the long tag lists (a valid hex id, so usable under #e/#p).
+func ManyTagValue(i int) string { return FakeID(50000 + i) }
+
 // FakeID returns a syntactically valid id that belongs to no generated event.
 func FakeID(n int) string {
 	h := sha256.Sum256([]byte(fmt.Sprintf("verif-absent-id-%d", n)))
@@ -165,6 +168,7 @@ type StoreCfg struct {
 	UnicodeText   bool
 	WeightKind5   int  // relative weight of deletion requests (default 2)
 	RegularWeight int  // extra weight of plain regular events (for stores that have to fill up)
+	NoManyTags    bool // never generate events with dozens of indexable tags
 	ThreeElemRef  bool // allow ["e", id, "wss://r"] forms (default true unless NoThreeElem)
 	NoThreeElem   bool
 }
@@ -281,6 +285,13 @@ func (c *StoreCfg) DrawEvent(t *rapid.T) *mocrelay.Event {
 				continue
 			}
 			ev.Tags = append(ev.Tags, drawRef(fmt.Sprintf("ref%d", i)))
+		}
+	}
+	// a contact list / a long thread: dozens of indexable tags (counts around 64 and its multiples)
+	if !c.NoManyTags && rapid.IntRange(0, 39).Draw(t, "manytags") == 0 {
+		name := rapid.SampledFrom([]string{"p", "e", "t"}).Draw(t, "manytagsname")
+		for i, k := 0, rapid.SampledFrom([]int{63, 64, 65, 127, 128, 129, 192, 256}).Draw(t, "manytagsn"); i < k; i++ {
+			ev.Tags = append(ev.Tags, mocrelay.Tag{name, ManyTagValue(i)})
 		}
 	}
 	// generic tags
